@@ -7,6 +7,9 @@ COQ_PROPS = "Props/C03.v"
 COQ_RUN = ("Forest.Run", "run_c03")
 GEN_TARGETS = ["can_give_terms", "compute_shift", "preimage_gap"]
 N = {"quick": 12000, "thorough": 400000}
+# a case takes milliseconds; an implementation that loops (the MODEL provably does not:
+# C03_terminates) is reported as a violation with its input after this CPU budget
+CASE_CPU_SECONDS = 20
 RULE = (
     "histories of 1-40 forest keys over 1-12 labels (label sets with gaps), shifts in [-4,4], arity 0-4 "
     "with repeated children, shaped streams (cycles of positive / zero / negative net shift, late large "
@@ -24,7 +27,9 @@ TRUSTED = [
     "this correspondence at the level of TableMethod.function / is_pumping / pumping_subuniverse after every insertion",
 ]
 ASSUMPTIONS = [
-    "partial correctness: termination of _process_queue is not proved (fuel); a non-terminating change shows up as a timeout / OutOfFuel mismatch",
+    "termination is proved for the MODEL (C03_terminates, explicit fuel bound); the real _process_queue is tied to the model by the "
+    "correspondence only, so a change of forest.py that makes it loop shows up as a harness timeout (the model, run with the proved "
+    "fuel bound, provably never answers OutOfFuel: C03_harness_never_out_of_fuel)",
     "labels are non-negative integers (ClassDB labels); children and shifts tuples have equal length",
 ]
 
@@ -133,11 +138,93 @@ def _impl_translated(g):
     return f.preimage_gap(g[2])
 
 
+def _static(ops):
+    keys = [o for o in ops if o[0] == 0]
+    labels = [o[1] for o in ops] + [c for o in keys for c, _ in o[2]]
+    n = max(labels, default=-1) + 1
+    g = max([1] + [abs(s) for o in keys for _, s in o[2]])
+    ar = max([len(o[2]) for o in keys], default=0)
+    return len(keys), n, g, ar
+
+
+def fuel_bound(ops):
+    """fuel_bound of coq/theories/Forest/TerminationDefs.v: the PROVED bound on the number of iterations
+    of one _process_queue call of the model, for the whole history"""
+    R, n, g, _ = _static(ops)
+    return (3 * R + 1) * (n * ((n + 1) * g + 2)) + 3
+
+
+class NonTermination(Exception):
+    pass
+
+
+_CAPPED = None
+
+
+def _capped_table_method():
+    """TableMethod with two termination guards, so that a change of forest.py that makes _process_queue
+    loop is reported quickly and with its input instead of burning the CPU budget of the case:
+    * no finite value may exceed B = (n+1)*g+1 (n = 1+largest label, g = largest |shift|): for the model this
+      is the proved reason for termination (held rules + pigeonhole bound on the gap, C03_iteration_decreases);
+    * the number of _increase_value/_set_infinite calls during one add_rule_key (every iteration of
+      _process_queue that can prolong the loop goes through one of them) may not exceed the measure of
+      Forest/TerminationDefs.v with the weight adapted to the code's re-queueing (a rule is re-queued once per
+      occurrence of the class among its children): ((2*arity+3)*R+1)*n*((n+1)*g+2)+3 >= fuel_bound."""
+    global _CAPPED
+    if _CAPPED is None:
+        from comb_spec_searcher.rule_db.forest import TableMethod
+
+        class Capped(TableMethod):
+            steps = 0
+            cap = 0
+            vbound = 0
+            max_steps = 0
+
+            def _tick(self):
+                self.steps += 1
+                if self.steps > self.cap:
+                    raise NonTermination(
+                        "_process_queue made more than %d calls of _increase_value/_set_infinite during one "
+                        "add_rule_key" % self.cap
+                    )
+
+            def _increase_value(self, comb_class, rule_idx):
+                self._tick()
+                super()._increase_value(comb_class, rule_idx)
+                v = self.function.get(comb_class, 0)
+                if v is not None and v > self.vbound:
+                    raise NonTermination(
+                        "the value of class %d reached %d, above the bound (n+1)*g+1 = %d that the hold test "
+                        "and the gap guarantee" % (comb_class, v, self.vbound)
+                    )
+
+            def _set_infinite(self, comb_class):
+                self._tick()
+                return super()._set_infinite(comb_class)
+
+            def add_rule_key(self, rule_key):
+                self.steps = 0
+                try:
+                    return super().add_rule_key(rule_key)
+                finally:
+                    self.max_steps = max(self.max_steps, self.steps)
+
+        _CAPPED = Capped
+    return _CAPPED()
+
+
+def _guarded_tm(ops):
+    R, n, g, ar = _static(ops)
+    tm = _capped_table_method()
+    tm.vbound = (n + 1) * g + 1
+    tm.cap = ((2 * ar + 3) * R + 1) * (n * ((n + 1) * g + 2)) + 3
+    return tm
+
+
 def _run_tm(ops):
-    from comb_spec_searcher.rule_db.forest import TableMethod
     from comb_spec_searcher.typing import ForestRuleKey, RuleBucket
 
-    tm = TableMethod()
+    tm = _guarded_tm(ops)
     out = []
     snaps = []
     for o in ops:
@@ -274,23 +361,33 @@ def shrink(case):
                 yield {"ops": ops[:i] + [o2] + ops[i + 1:], "perm_seed": case["perm_seed"]}
 
 
-TECHNIQUE = "Coq proof (soundness/completeness of the table method w.r.t. the inductive least fixed point, via the gap lemma and run invariants) + extracted-model/implementation correspondence"
+TECHNIQUE = "Coq proof (soundness/completeness of the table method w.r.t. the inductive least fixed point, via the gap lemma and run invariants; TERMINATION by a decreasing measure and a pigeonhole bound on the gap) + extracted-model/implementation correspondence"
 LEVEL_TEXT = (
     "Theorems C03_* (coq/theories/Props/C03.v, axiom-free) prove for every history of key insertions "
-    "(any arity, repeated children, shifts of either sign) and is_pumping queries, every resolution of the "
-    "arbitrary set.pop() choices and every fuel on which the run returns: reported pumping <-> pumps in the "
-    "inductive least fixed point; reported value n <-> exactly n terms derivable; the answers depend only on the "
-    "SET of inserted keys (order, grouping, multiplicity irrelevant); they only grow when keys are added; "
-    "pumping_subuniverse = keys whose classes all pump. Proof: run invariants (soundness, work-list covers every "
-    "fireable rule, held rules sit above the cached gap, cached gap empty or all-zero state) + the gap lemma "
-    "(soundness of _set_infinite) + completeness at exit. The model (Forest/Model.v) is tied to forest.py by "
-    "comparing function/pumping_subuniverse/is_pumping after every operation on generated histories."
+    "(any arity, repeated children, shifts of either sign) and is_pumping queries and every resolution of the "
+    "arbitrary set.pop() choices: TOTAL CORRECTNESS. Termination: the model of _process_queue returns for every "
+    "fuel >= fuel_bound ops = (3R+1)*n*((n+1)*g+2)+3 (R keys, n = 1+largest label, g = largest |shift|, >= 1) "
+    "(C03_terminates), more fuel gives the same answer (C03_fuel_monotone, C03_fuel_irrelevant), so the model is a "
+    "total function run_total of (choices, history) (C03_run_total). With no fuel hypothesis (C03_total_*): reported "
+    "pumping <-> pumps in the inductive least fixed point; reported value n <-> exactly n terms derivable; the answers "
+    "depend only on the SET of inserted keys (order, grouping, multiplicity irrelevant); they only grow when keys are "
+    "added; pumping_subuniverse = keys whose classes all pump. The fuel-indexed versions (C03_sound_complete, ...) are kept. "
+    "Proof of partial correctness: run invariants (soundness, work-list covers every fireable rule, held rules sit above "
+    "the cached gap, cached gap empty or all-zero state) + the gap lemma (soundness of _set_infinite) + completeness at "
+    "exit. Proof of termination: every iteration of the while loop (C03_loop_is_pstep) preserves the loop invariant and "
+    "strictly decreases mu = (3|rules|+1)*SUM_{finite v}(1+max(0,B-v)) + 2|queue| + |held| with B = (#labels+1)*gap_size+1 "
+    "(C03_iteration_decreases, C03_process_terminates): a rule whose parent lies above the cached gap end is put on hold "
+    "instead of firing, and the cached gap starts at most at #labels*gap_size+1 by pigeonhole on preimage_gap "
+    "(C03_gap_start_bounded), so no value is increased beyond B. The model (Forest/Model.v) is tied to forest.py by "
+    "comparing function/pumping_subuniverse/is_pumping after every operation on generated histories; the extracted model "
+    "is run with fuel_bound and provably never reports OutOfFuel (C03_harness_never_out_of_fuel)."
 )
 LEVEL_NOTE = (
-    "Partial correctness: termination of _process_queue is not proved (fuel; OutOfFuel excluded by hypothesis). "
+    "Termination is a theorem about the MODEL (layer A); that the real TableMethod._process_queue terminates follows only "
+    "through the correspondence (a looping change of forest.py is seen as a harness timeout, never as agreement). "
     "The firing test and the gap search of the model are proved equal to TableMethod._can_give_terms o _compute_shift "
     "and Function.preimage_gap as RE-TRANSLATED from forest.py on every run (C03_firing_test_is_source, "
-    "C03_gap_search_is_source). "
+    "C03_gap_search_is_source), so the pigeonhole bound is about the source's own gap search. "
     "The model is layer A of DESIGN.md (firing decided from the value table, re-queue = all fireable rules "
     "mentioning the class); the incrementally maintained _shifts/_rules_using_class bookkeeping of the code is "
     "covered by the correspondence only. Trusted: Coq kernel, extraction, OCaml driver, harness."
